@@ -14,7 +14,7 @@ RULE = ("case kinds by index mod 8: 0-4 random Hypergraph (non-contiguous / stri
         "weighted or not; every order 0..max+1 present or absent, keep_isolated_nodes both); 5 dense stress family (all "
         "supersets of one pair on 8-10 nodes: 64-256 hyperedges through one pair); 6 uniform hypergraph on 0..N-1 (tensor); "
         "7 TemporalHypergraph (adjacency at each time vs snapshot). non-trivial = >=2 hyperedges; distinct = by abstract state")
-DECIDING = ["C09:mapping", "C09:incidence", "C09:adjacency", "C09:per-order", "C09:laplacian", "C09:dual", "C09:tensor", "C09:temporal"]
+DECIDING = ["C09:no-mapping-path", "C09:mapping", "C09:incidence", "C09:adjacency", "C09:per-order", "C09:laplacian", "C09:dual", "C09:tensor", "C09:temporal"]
 ASSUMPTIONS = ["dense reference matrices are built from the public observation by definition; integer matrices compared exactly, weighted ones with rtol 1e-12"]
 
 
@@ -250,6 +250,28 @@ def static_case(ctx, rng, h, idx, stress):
         ctx.check("C09:laplacian", False, f"C09:laplacian_matrices_all_orders:raised:{type(all_lap.e).__name__}", lambda: wit(all_lap))
     if all_inc is not None and isinstance(all_inc, _Raised):
         ctx.check("C09:per-order", False, f"C09:incidence_matrices_all_orders:raised:{type(all_inc.e).__name__}", lambda: wit(all_inc))
+    # ---- the matrix returned WITHOUT the mapping is the matrix returned with it ---------------------
+    # (the mapping is then the documented default: sorted labels -> rows; both code paths end in different returns)
+    ds = sorted({K.size(k) - 1 for k in S.edges if K.size(k) >= 2})
+    pairs = [("binary_incidence_matrix", lambda **kw: la.binary_incidence_matrix(h, **kw)),
+             ("binary_incidence_matrix(method)", lambda **kw: h.binary_incidence_matrix(**kw)),
+             ("incidence_matrix", lambda **kw: la.incidence_matrix(h, **kw)),
+             ("incidence_matrix(method)", lambda **kw: h.incidence_matrix(**kw)),
+             ("adjacency_matrix", lambda **kw: la.adjacency_matrix(h, **kw)),
+             ("adjacency_matrix(method)", lambda **kw: h.adjacency_matrix(**kw)),
+             ("dual_random_walk_adjacency", lambda **kw: la.dual_random_walk_adjacency(h, **kw)),
+             ("dual_random_walk_adjacency(method)", lambda **kw: h.dual_random_walk_adjacency(**kw))]
+    if ds and not stress:
+        d0 = rng.choice(ds)
+        pairs += [(f"adjacency_matrix_by_order", lambda **kw: la.adjacency_matrix_by_order(h, d0, **kw)),
+                  (f"incidence_matrix_by_order", lambda **kw: la.incidence_matrix_by_order(h, d0, **kw))]
+    for name, fn in pairs:
+        a, b = call(fn, return_mapping=True), call(fn)
+        if isinstance(a, _Raised) or isinstance(b, _Raised):
+            ctx.check("C09:no-mapping-path", isinstance(a, _Raised) == isinstance(b, _Raised), f"C09:{name}:raises-only-with-or-only-without-return_mapping", lambda: wit((name, a, b)))
+            continue
+        ok = isinstance(a, tuple) and len(a) == 2 and not isinstance(b, tuple) and getattr(b, "shape", None) == a[0].shape and np.array_equal(dense(a[0]), dense(b))
+        ctx.check("C09:no-mapping-path", ok, f"C09:{name}:matrix-without-mapping-differs-from-matrix-with-mapping", lambda: wit(name))
 
 
 def hub_case(ctx, rng, h, idx, d):
@@ -385,6 +407,12 @@ def temporal_eval(ctx, rng, idx, h, phase):
                     if i != j:
                         ref[i, j] = sum(1 for e in snap if mp[i] in e and mp[j] in e)
             ctx.check("C09:temporal", np.array_equal(A, ref), "C09:temporal_adjacency_matrix:entries", lambda: wit((t, A.tolist(), ref.tolist())))
+    a, b = call(temporal_adjacency_matrix, h, return_mapping=True), call(temporal_adjacency_matrix, h)
+    if not isinstance(a, _Raised) and not isinstance(b, _Raised):
+        ok = isinstance(b, dict) and sorted(b.keys()) == sorted(a[0].keys()) and all(np.array_equal(dense(b[t]), dense(a[0][t])) for t in b)
+        ctx.check("C09:no-mapping-path", ok, "C09:temporal_adjacency_matrix:matrices-without-mapping-differ-from-matrices-with-mapping", wit)
+    else:
+        ctx.check("C09:no-mapping-path", isinstance(a, _Raised) == isinstance(b, _Raised), "C09:temporal_adjacency_matrix:raises-only-with-or-only-without-return_mapping", lambda: wit((a, b)))
     S2 = observe(h)
     ctx.check("C09:temporal", S2.same(S, with_hgmd=True), "C09:temporal_adjacency_matrix:mutated-argument", wit)
     if phase == 0 and S.edges:
